@@ -20,8 +20,8 @@ ASSUMPTIONS = ["liveness is restated as bounded progress; a watchdog timeout wit
                "g++-12 -O1 build of the working tree with harness-side shims"]
 FLOORS = {"timer_evaluations": {"quick": 1500, "thorough": 30000}, "requests_honoured": {"quick": 1200, "thorough": 25000},
           "stops_checked": {"quick": 40, "thorough": 800}, "stops_while_waiting": {"quick": 15, "thorough": 300},
-          "due_alarms": {"quick": 30, "thorough": 500}, "lagging_runs": {"quick": 20, "thorough": 400},
-          "pushes_while_waiting_checked": {"quick": 300, "thorough": 5000}, "idle_stops_checked": {"quick": 8, "thorough": 150}, "stops_requested_during_the_start_phase": {"quick": 8, "thorough": 150}, "relative_wall_alarms_requested_while_lagging": {"quick": 6, "thorough": 120}, "lagging_bursts_of_1024_steps": {"quick": 5, "thorough": 100},
+          "due_alarms": {"quick": 20, "thorough": 500}, "lagging_runs": {"quick": 20, "thorough": 400},
+          "pushes_while_waiting_checked": {"quick": 300, "thorough": 5000}, "idle_stops_checked": {"quick": 8, "thorough": 150}, "stops_requested_during_the_start_phase": {"quick": 5, "thorough": 150}, "relative_wall_alarms_requested_while_lagging": {"quick": 4, "thorough": 120}, "lagging_bursts_of_1024_steps": {"quick": 5, "thorough": 100},
           "push_source_timers_honoured": {"quick": 25, "thorough": 400}, "push_source_timers_with_earlier_push": {"quick": 10, "thorough": 150}}
 
 
